@@ -2,7 +2,7 @@ import Jamm.Model.Proc
 set_option linter.unusedSectionVars false
 namespace Jamm
 
-/-- invariant used below: lock holder bookkeeping + no creator when the file was ready from the start -/
+/-- invariant used below: exclusion, seen-all-commits, and lock-holder bookkeeping -/
 def ProcSys.good (s : ProcSys) : Bool :=
   s.exclusive && s.sawAll && (s.lock.isSome == s.procs.any PPhase.holdsLock)
 
@@ -178,9 +178,9 @@ theorem good_step (s : ProcSys) (i : Nat) (h : Excl s ∧ Saw s ∧ Flag s)
     | start =>
       simp only []
       split
-      · exact nolock .creating .created rfl rfl
+      · exact nolock .opened .created rfl rfl
       · exact nolock .opened s.file rfl rfl
-    | creating => exact nolock .opened .ready rfl rfl
+    | creating => exact nolock .opened s.file rfl rfl
     | opened =>
       simp only [Option.isNone_iff_eq_none] at he
       have nohold : ∀ (j : Nat) (p : PPhase), s.procs[j]? = some p → p.holdsLock = true → False := by
@@ -219,7 +219,22 @@ theorem good_step (s : ProcSys) (i : Nat) (h : Excl s ∧ Saw s ∧ Flag s)
         · unfold Flag; simp only
           refine ⟨fun _ => ⟨i, .inside s.commits, ?_, rfl⟩, fun _ => by rw [hl]; rfl⟩
           rw [getElem?_set_of _ i hget]; simp
-      · exact release .failed s.commits rfl rfl
+      · -- still empty: the holder initialises the file and keeps the lock
+        have hl := hE i _ hget rfl
+        refine ⟨?_, ?_, ?_⟩
+        · intro j p hj hp
+          simp only [getElem?_set_of _ j hget] at hj
+          split at hj
+          · subst j; exact hl
+          · exact hE j p hj hp
+        · intro j n hj
+          simp only [getElem?_set_of _ j hget] at hj
+          split at hj
+          · cases hj
+          · exact hS j n hj
+        · unfold Flag; simp only
+          refine ⟨fun _ => ⟨i, .locked, ?_, rfl⟩, fun _ => by rw [hl]; rfl⟩
+          rw [getElem?_set_of _ i hget]; simp
     | inside n => exact release .closed (s.commits + 1) rfl rfl
     | closed => simp at he
     | failed => simp at he
@@ -251,9 +266,6 @@ theorem good_run (sched : List Nat) : ∀ (s : ProcSys), s.good = true → (s.ru
       exact ih _ ((good_iff _).2 (good_step s i ((good_iff s).1 h) he))
     · exact ih s h
 
-/-- invariant for X3: nobody has failed and the file holds valid header pages -/
-def ReadyInv (s : ProcSys) : Prop := s.noFailure = true ∧ s.file = .ready
-
 theorem noFailure_set (s : ProcSys) (i : Nat) (p' : PPhase) (f : FileSt) (l : Option Nat) (c : Nat)
     (h : s.noFailure = true) (hp' : p' ≠ .failed) :
     ({ procs := s.procs.set i p', file := f, lock := l, commits := c } : ProcSys).noFailure = true := by
@@ -264,26 +276,89 @@ theorem noFailure_set (s : ProcSys) (i : Nat) (p' : PPhase) (f : FileSt) (l : Op
   · exact h p hp
   · subst hp; simpa using hp'
 
-theorem readyInv_step (s : ProcSys) (i : Nat) (h : ReadyInv s) : ReadyInv (s.step i) := by
-  obtain ⟨hN, hF⟩ := h
+/-- `step` only ever sets the phases `.opened`, `.locked`, `.inside _`, `.closed`: nobody becomes `.failed` -/
+theorem noFailure_step (s : ProcSys) (i : Nat) (hN : s.noFailure = true) : (s.step i).noFailure = true := by
   unfold ProcSys.step
   split
-  · exact ⟨hN, hF⟩
+  · exact hN
   · rename_i ph hget
     cases ph with
     | start =>
       simp only []
-      rw [if_neg (by rw [hF]; decide)]
-      exact ⟨noFailure_set s i _ _ _ _ hN (by decide), hF⟩
-    | creating => exact ⟨noFailure_set s i _ _ _ _ hN (by decide), rfl⟩
-    | opened => exact ⟨noFailure_set s i _ _ _ _ hN (by decide), hF⟩
+      split
+      · exact noFailure_set s i _ _ _ _ hN (by decide)
+      · exact noFailure_set s i _ _ _ _ hN (by decide)
+    | creating => exact noFailure_set s i _ _ _ _ hN (by decide)
+    | opened => exact noFailure_set s i _ _ _ _ hN (by decide)
     | locked =>
       simp only []
-      rw [if_pos hF]
-      exact ⟨noFailure_set s i _ _ _ _ hN (by simp), hF⟩
-    | inside n => exact ⟨noFailure_set s i _ _ _ _ hN (by decide), hF⟩
-    | closed => exact ⟨hN, hF⟩
-    | failed => exact ⟨hN, hF⟩
+      split
+      · exact noFailure_set s i _ _ _ _ hN (by simp)
+      · exact noFailure_set s i _ _ _ _ hN (by decide)
+    | inside n => exact noFailure_set s i _ _ _ _ hN (by decide)
+    | closed => exact hN
+    | failed => exact hN
+
+theorem noFailure_run (sched : List Nat) :
+    ∀ (s : ProcSys), s.noFailure = true → (s.run sched).noFailure = true := by
+  induction sched with
+  | nil => intro s h; exact h
+  | cons i rest ih =>
+    intro s h
+    unfold ProcSys.run
+    split
+    · exact ih _ (noFailure_step s i h)
+    · exact ih s h
+
+theorem noFailure_initial (n : Nat) (file : FileSt) : (ProcSys.initial n file).noFailure = true := by
+  unfold ProcSys.noFailure ProcSys.initial
+  simp only [List.all_eq_true]
+  intro p hp
+  rw [(List.mem_replicate.1 hp).2]; rfl
+
+/-- invariant for X5: a process is inside only while the file holds valid header pages -/
+def ReadyInv (s : ProcSys) : Prop := ∀ (n : Nat), PPhase.inside n ∈ s.procs → s.file = .ready
+
+theorem inside_of_mem_set {l : List PPhase} {i n : Nat} {p' : PPhase} (hp' : ∀ m, p' ≠ .inside m)
+    (h : PPhase.inside n ∈ l.set i p') : PPhase.inside n ∈ l := by
+  rcases List.mem_or_eq_of_mem_set h with h | h
+  · exact h
+  · exact (hp' n h.symm).elim
+
+/-- a process gets inside only by a `.locked` step that found the file ready, and no step moves the file
+away from `.ready` (`.start` changes it only when it is `.missing`) -/
+theorem readyInv_step (s : ProcSys) (i : Nat) (h : ReadyInv s) : ReadyInv (s.step i) := by
+  unfold ProcSys.step
+  split
+  · exact h
+  · rename_i ph hget
+    cases ph with
+    | start =>
+      simp only []
+      split
+      · rename_i hm
+        intro n hn
+        have := h n (inside_of_mem_set (by intro m; exact PPhase.noConfusion) hn)
+        rw [hm] at this; cases this
+      · intro n hn
+        exact h n (inside_of_mem_set (by intro m; exact PPhase.noConfusion) hn)
+    | creating =>
+      intro n hn
+      exact h n (inside_of_mem_set (by intro m; exact PPhase.noConfusion) hn)
+    | opened =>
+      intro n hn
+      exact h n (inside_of_mem_set (by intro m; exact PPhase.noConfusion) hn)
+    | locked =>
+      simp only []
+      split
+      · rename_i hr
+        intro n hn; exact hr
+      · intro n hn; rfl
+    | inside m =>
+      intro n hn
+      exact h m (List.mem_of_getElem? hget)
+    | closed => exact h
+    | failed => exact h
 
 theorem readyInv_run (sched : List Nat) : ∀ (s : ProcSys), ReadyInv s → ReadyInv (s.run sched) := by
   induction sched with
@@ -295,12 +370,9 @@ theorem readyInv_run (sched : List Nat) : ∀ (s : ProcSys), ReadyInv s → Read
     · exact ih _ (readyInv_step s i h)
     · exact ih s h
 
-theorem readyInv_initial (n : Nat) : ReadyInv (ProcSys.initial n .ready) := by
-  refine ⟨?_, rfl⟩
-  unfold ProcSys.noFailure ProcSys.initial
-  simp only [List.all_eq_true]
-  intro p hp
-  rw [(List.mem_replicate.1 hp).2]; rfl
+theorem readyInv_initial (n : Nat) (file : FileSt) : ReadyInv (ProcSys.initial n file) := by
+  intro m hm
+  cases (List.mem_replicate.1 hm).2
 
 end ProcAux
 
@@ -321,16 +393,41 @@ theorem exclusive_run (n : Nat) (file : FileSt) (sched : List Nat) :
   exact h.1
 
 open ProcAux in
+/-- X4: whatever the initial file state (missing, created but empty, initialised), no process ever fails,
+under every schedule: a missing or empty file is initialised by whoever holds the lock -/
+theorem never_fails (n : Nat) (file : FileSt) (sched : List Nat) :
+    ((ProcSys.initial n file).run sched).noFailure = true :=
+  noFailure_run sched _ (noFailure_initial n file)
+
 /-- X3: when the file exists and is initialised from the start, no process ever fails, under every
 schedule -/
 theorem existing_file_no_failure (n : Nat) (sched : List Nat) :
     ((ProcSys.initial n .ready).run sched).noFailure = true :=
-  (readyInv_run sched _ (readyInv_initial n)).1
+  never_fails n .ready sched
 
-/-- X4 (open finding D12): when the file does not exist yet, a second process can get the lock on the
-file the first one has created but not yet initialised, and fails -/
-theorem create_race_witness :
-    ((ProcSys.initial 2 .missing).run [0, 1, 1, 1]).noFailure = false := by
+open ProcAux in
+/-- X5: whoever is inside the database sees an initialised file, for every initial file state and
+schedule -/
+theorem inside_sees_ready_file (n : Nat) (file : FileSt) (sched : List Nat) :
+    let s := (ProcSys.initial n file).run sched
+    (s.procs.any (fun p => match p with | .inside _ => true | _ => false)) = true → s.file = .ready := by
+  intro s h
+  rw [List.any_eq_true] at h
+  obtain ⟨p, hp, hq⟩ := h
+  have inv : ReadyInv s := readyInv_run sched _ (readyInv_initial n file)
+  cases p with
+  | inside m => exact inv m hp
+  | _ => cases hq
+
+/-- X6 (former finding D12, about the pinned order): when the file does not exist yet, a second process
+can get the lock on the file the first one has created but not yet initialised, and fails -/
+theorem create_race_witness_pinned :
+    ((ProcSys.initial 2 .missing).runPinned [0, 1, 1, 1]).noFailure = false := by
+  decide
+
+/-- the repaired order passes the schedule of `create_race_witness_pinned` -/
+theorem repaired_order_passes_that_schedule :
+    ((ProcSys.initial 2 .missing).run [0, 1, 1, 1]).noFailure = true := by
   decide
 
 end Jamm
